@@ -305,7 +305,7 @@ API_CHECKS = {
     "C08": [("plain", "frames", "C08", 5, 7), ("plain", "loaded", "C08", 4, 6), ("plain", "wild", "C08", 4, 5)],
     "C09": [("plain", "params", "C09", 3, 4), ("plain", "loaded", "C09", 4, 6)],
     "C10": [("plain", "mut", "C10", 6, 8), ("plain", "c07", "C10", 6, 8), ("plain", "params", "C10", 3, 4), ("plain", "loaded", "C10", 4, 6), ("plain", "wild", "C10", 4, 6)],
-    "C11": [("plain", "lookup", "C11", 5, 8)],
+    "C11": [("plain", "lookup", "C11", 4, 7)],
     "C01": [("plain", "build", "C01", 4, 6)],
     "C03": [("plain", "build", "C03", 4, 6)],
 }
